@@ -73,7 +73,7 @@ class Network:
         self.servers = {}  # netloc -> FakeHttpServer
         self.log = []  # WireEntry
         self.clients = []  # constructor records of every soap client: dict(netloc, ssl_context, cls, owner)
-        self.interceptor = None  # callable(entry) -> None | ('status', code) | ('raise', exc) | ('drop',) | ('hold',)
+        self.interceptor = None  # callable(entry) -> None | ('status', code) | ('raise', exc) | ('drop',) | ('hold',) | ('rewrite', bytes)
         self.on_delivered = None  # callable(entry) after a request was handled
         self.held = []  # entries withheld by the interceptor ('hold'): (entry, headers)
         self.pre_handle = None
@@ -119,6 +119,8 @@ class Network:
             if kind == 'hold':
                 self.held.append((entry, Headers(headers)))
                 return 202, 'held', b''
+            if kind == 'rewrite':  # an equivalent message takes the place of the one that was sent
+                entry.request = bytes(decision[1])
         return self._handle(entry, headers)
 
     def _handle(self, entry, headers):
